@@ -229,6 +229,15 @@ theorem accepted_phase_is_recorded (C : Crypto) (cfg : Cfg) (s : St) (f : Frame)
   generalize oGotMessage C cfg f _ = r
   rcases r with ⟨s', _ | e⟩ <;> rfl
 
+/-- Losing the connection and re-opening the mailbox (`lost`, then `connected` → `RC_tx_open` + `drain`) touches only
+    the outbound half: the dedup memory `_processed`, Order's queue, the keys and everything delivered so far are
+    unchanged, so the server's full replay after a re-open falls under `repeated_phase_ignored`. -/
+theorem reconnect_keeps_dedup (C : Crypto) (cfg : Cfg) (s : St) (e : Ev) (he : e = .lost ∨ e = .connected) :
+    let s' := (step C cfg s e).1
+    s'.processed = s.processed ∧ s'.oq = s.oq ∧ s'.ord = s.ord ∧ s'.rkey = s.rkey ∧ s'.rcv = s.rcv ∧
+    s'.boss = s.boss ∧ s'.app = s.app ∧ s'.nextRx = s.nextRx ∧ s'.rxPhases = s.rxPhases := by
+  rcases he with rfl | rfl <;> simp [step, liftLo]
+
 /-- the reorder loop of `W_received` runs to completion with the fuel the model gives it -/
 theorem recvLoop_done : ∀ (fuel : Nat) (s : St), s.rxPhases.length ≤ fuel →
     (recvLoop fuel s).rxPhases.lookup (recvLoop fuel s).nextRx = none
